@@ -6,6 +6,7 @@ import (
 	"encoding/hex"
 	"fmt"
 	"math/rand"
+	"sync"
 
 	ipfslog "berty.tech/go-ipfs-log"
 	"berty.tech/go-ipfs-log/enc"
@@ -312,6 +313,36 @@ func CheckC18(run *evid.Run) {
 				run.Violate("C18/same-key-merge", det(), histSample(h), "same-key reader cannot merge the loaded log of r%d: err=%v, %d of %d entries", r, err, fresh.Len(), l.Len())
 			}
 			run.Count("logs_loaded_and_merged_with_same_key", 1)
+			// several same-key readers merge the SAME loaded log object at the same time (its entry objects are
+			// shared between them): every one of them must succeed
+			if loaded.Len() >= 3 && (i+r)%2 == 0 {
+				const readers = 4
+				errs := make([]error, readers)
+				lens := make([]int, readers)
+				var wg sync.WaitGroup
+				start := make(chan struct{})
+				for g := 0; g < readers; g++ {
+					lo4 := w2.LogOpts(w2.LogID)
+					lo4.IO = same
+					rl, _ := ipfslog.NewLog(x.W.Store.API(), x.W.Idents[0], lo4)
+					wg.Add(1)
+					go func(g int, rl *ipfslog.IPFSLog) {
+						defer wg.Done()
+						<-start
+						_, errs[g] = rl.Join(loaded, -1)
+						lens[g] = rl.Len()
+					}(g, rl)
+				}
+				close(start)
+				wg.Wait()
+				run.Count("concurrent_same_key_merges_of_one_loaded_log", readers)
+				for g := 0; g < readers; g++ {
+					if errs[g] != nil || lens[g] != l.Len() {
+						run.Violate("C18/same-key-merge", det("concurrent_readers", readers), histSample(h), "one of %d same-key readers merging the same loaded log of r%d at the same time failed: err=%v, %d of %d entries", readers, r, errs[g], lens[g], l.Len())
+						break
+					}
+				}
+			}
 			// a reader without the key gets only the heads
 			lo3 := w2.LogOpts(w2.LogID)
 			lo3.IO = none
